@@ -305,11 +305,11 @@ impl Word {
                                     
                                     let cur_length = sy.segments.len() - pos;
                                     let maybe_new_length = self.alias_apply_length(mods, alias.output.position)?;
-                                    let seg = {
-                                        let seg = sy.segments.get_mut(*pos).unwrap();
+                                    // a long segment is a run of identical segments, all of them take the payload
+                                    for seg in sy.segments.range_mut(*pos..) {
                                         self.alias_apply_mods(seg, mods, alias.output.position)?;
-                                        *seg
-                                    };
+                                    }
+                                    let seg = sy.segments[*pos];
                                     if let Some(new_length) = maybe_new_length {
                                         match new_length.cmp(&cur_length) {
                                             std::cmp::Ordering::Equal => {},
